@@ -592,6 +592,7 @@ func (s *Server) FastInvoke(w http.ResponseWriter, i *interop.Invoke, direct boo
 				State: s.InternalStateGetter(),
 			}
 		} else {
+			vhook.At("fastinvoke.success")
 			done := doneFromInvokeSuccess(invokeSuccess)
 			s.InvokeDoneChan <- DoneWithState{Done: done, State: s.InternalStateGetter()}
 		}
